@@ -192,6 +192,7 @@ class WSStream:
         self.start_time: float
         self.state = ASGIWebsocketState.HANDSHAKE
         self.stream_id = stream_id
+        self.too_large = False
 
         self.connection: Connection
         self.handshake: Handshake
@@ -314,13 +315,17 @@ class WSStream:
     async def _handle_events(self) -> None:
         for event in self.connection.events():
             if isinstance(event, Message):
+                if self.too_large:
+                    continue  # Closing with 1009, nothing more is delivered
                 try:
                     self.buffer.extend(event)
                 except FrameTooLargeError:
+                    self.too_large = True
+                    self.buffer.clear()
                     await self._send_wsproto_event(
                         CloseConnection(code=CloseReason.MESSAGE_TOO_BIG)
                     )
-                    break
+                    continue
 
                 if event.message_finished:
                     await self.app_put(self.buffer.to_message())
